@@ -317,6 +317,37 @@ func refundMint(h *Hist, b *Built, diff *big.Int) bool {
 	return bound.Sign() > 0 && diff.Cmp(bound) <= 0
 }
 
+// BuildOnly builds the block a block op stands for on h.Node (txs signed against the head state,
+// evidences injected) without running any oracle.
+func (h *Hist) BuildOnly(op string) (*types.Block, error) {
+	cbName, txOps, evOps := ParseBlockOp(op)
+	st := h.Node.State()
+	num := new(big.Int).Add(h.Node.Head().Number(), common.Big1())
+	var txs []*types.Transaction
+	for _, t := range txOps {
+		tx, err := h.F.MkTx(st, num, t)
+		if err != nil {
+			return nil, err
+		}
+		from, _ := types.Sender(types.MakeSigner(num), tx)
+		st.SetNonce(from, st.GetNonce(from)+1)
+		if h.Txs != nil {
+			h.Txs[tx.Hash()] = TxInfo{Op: t, Escrow: escrowOf(h.F, t)}
+		}
+		txs = append(txs, tx)
+	}
+	for _, e := range evOps {
+		for _, ev := range h.F.MkEvidence(h.Node, e) {
+			h.Node.Staking.VerifAddEvidence(ev)
+		}
+	}
+	b, err := h.Node.Build(h.F.Val(cbName).Main, txs)
+	if err != nil {
+		return nil, err
+	}
+	return b.Block, nil
+}
+
 func statuses(b *Built) string {
 	var s []string
 	for i := range b.Included {
